@@ -41,11 +41,25 @@ type StructDataProvider struct {
 }
 
 func (s *StructDataProvider) Get(key string) any {
-	field := s.value.FieldByName(key)
+	field := s.fieldByName(key)
 	if !field.IsValid() || !field.CanInterface() {
 		return nil
 	}
 	return field.Interface()
+}
+
+// like reflect's FieldByName, but a field promoted through a nil embedded pointer is absent
+// (the zero Value) instead of a panic
+func (s *StructDataProvider) fieldByName(key string) reflect.Value {
+	sf, ok := s.value.Type().FieldByName(key)
+	if !ok {
+		return reflect.Value{}
+	}
+	field, err := s.value.FieldByIndexErr(sf.Index)
+	if err != nil {
+		return reflect.Value{}
+	}
+	return field
 }
 
 func (s *StructDataProvider) GetByField(field reflect.StructField, fallback string) (any, string) {
@@ -54,7 +68,7 @@ func (s *StructDataProvider) GetByField(field reflect.StructField, fallback stri
 }
 
 func (s *StructDataProvider) GetNestedProvider(key string) DataProvider {
-	field := s.value.FieldByName(key)
+	field := s.fieldByName(key)
 	if !field.IsValid() {
 		return nil
 	}
